@@ -181,9 +181,13 @@ fn run_with_reused_list(dict: &Dict, mode: Mode, s: InfoSubset, text: &str) -> R
     let mut tok = StatefulTokenizer::new(dict.clone(), Mode::C);
     let mut list = MorphemeList::empty(dict.clone());
     tok.set_subset(s);
-    tok.reset().push_str("京");
-    tok.do_tokenize().map_err(|e| classify_err(&e))?;
-    list.collect_results(&mut tok).map_err(|e| classify_err(&e))?;
+    // (another text, then the text itself: whatever the tokenizer remembers about these very words
+    // was learnt before the mode - and with it the fields to load - changed)
+    for warm in ["京", text] {
+        tok.reset().push_str(warm);
+        tok.do_tokenize().map_err(|e| classify_err(&e))?;
+        list.collect_results(&mut tok).map_err(|e| classify_err(&e))?;
+    }
     tok.set_mode(mode);
     for _ in 0..2 {
         tok.reset().push_str(text);
